@@ -2,12 +2,17 @@ package file
 
 import (
 	"context"
+	"errors"
 	"io"
 
 	"github.com/ipld/go-ipld-prime"
 	"github.com/ipld/go-ipld-prime/adl"
 	"github.com/ipld/go-ipld-prime/datamodel"
 )
+
+// errNegativeSeek is returned by the file readers when a Seek would move
+// before the start of the file; the reader is left where it was.
+var errNegativeSeek = errors.New("unixfsnode/file: seek: negative position")
 
 // NewUnixFSFile attempts to construct an ipld node from the base protobuf node representing the
 // root of a unixfs File.
@@ -96,16 +101,18 @@ func (f *singleNodeReader) Seek(offset int64, whence int) (int64, error) {
 		return 0, err
 	}
 
+	next := f.offset
 	switch whence {
 	case io.SeekStart:
-		f.offset = int(offset)
+		next = int(offset)
 	case io.SeekCurrent:
-		f.offset += int(offset)
+		next = f.offset + int(offset)
 	case io.SeekEnd:
-		f.offset = len(buf) + int(offset)
+		next = len(buf) + int(offset)
 	}
-	if f.offset < 0 {
-		return 0, io.EOF
+	if next < 0 {
+		return 0, errNegativeSeek
 	}
+	f.offset = next
 	return int64(f.offset), nil
 }
